@@ -47,6 +47,7 @@ class SimThread:
         self.priority = 0.0
         self.in_library = 0  # > 0 while the thread is inside a library call made by the harness
         self.native_id = 0
+        self.local = 0  # pre-emption points this thread has passed itself
 
 
 class Sim:
@@ -67,8 +68,17 @@ class Sim:
         self.step_cap = step_cap
         # recorded decisions [step, thread, kind]; kind: "0" first, "s" switch at a
         # pre-emption point, "f" hand-off when a thread finished, "b" baton holder blocked
+        # A switch is recorded as [step, next thread, "s", pre-empted thread, that thread's own step
+        # count]: fed back, it is looked up by (thread, own step count), so it keeps its meaning
+        # when other switches are deleted from the schedule (minimisation).  Older replay files
+        # have three-field entries, which are matched by the global step count.
         self.feed = [list(d) for d in feed] if feed is not None else None
         self._fi = 0
+        self._local_feed: Optional[Dict[Tuple[str, int], str]] = None
+        self._f_feed: List[str] = []
+        if self.feed is not None and any(len(d) >= 5 for d in self.feed if d[2] == "s"):
+            self._local_feed = {(d[3], d[4]): d[1] for d in self.feed if d[2] == "s" and len(d) >= 5}
+            self._f_feed = [d[1] for d in self.feed if d[2] == "f"]
         self.threads: Dict[str, SimThread] = {}
         self.order: List[str] = []
         self.current: Optional[SimThread] = None
@@ -123,6 +133,7 @@ class Sim:
                 me.blocked_on = None
                 self._have_blocked = any(t.blocked_on is not None for t in self.threads.values())
         self.steps += 1
+        cur.local += 1
         if self.steps > self.step_cap:
             self.aborted = StepBudgetExceeded(self.steps)
             raise self.aborted
@@ -132,7 +143,7 @@ class Sim:
             self._switch(cur, nxt, site)
 
     def _switch(self, cur: SimThread, nxt: SimThread, site: str) -> None:
-        self.decisions.append((self.steps, nxt.name, "s"))
+        self.decisions.append((self.steps, nxt.name, "s", cur.name, cur.local))
         self.switch_sites.append(f"{cur.name}@{site}")
         self.site_counts[site] = self.site_counts.get(site, 0) + 1
         self.in_code[cur.name] = site
@@ -148,6 +159,14 @@ class Sim:
 
     # -- strategies -------------------------------------------------------
     def _decide(self, cur: SimThread) -> Optional[SimThread]:
+        if self._local_feed is not None:
+            name = self._local_feed.get((cur.name, cur.local))
+            if name is None:
+                return None
+            t = self.threads.get(name)
+            if t is None or t.finished or t.blocked_on is not None:
+                return None
+            return t
         if self.feed is not None:
             f = self.feed
             while self._fi < len(f) and (f[self._fi][2] != "s" or f[self._fi][0] < self.steps):
@@ -225,7 +244,13 @@ class Sim:
                 return
             self.done.set()
             return
-        if self.feed is not None:
+        if self._local_feed is not None:
+            nxt = rest[0]
+            if self._f_feed:
+                want = self.threads.get(self._f_feed.pop(0))
+                if want in rest:
+                    nxt = want
+        elif self.feed is not None:
             nxt = rest[0]
             f = self.feed
             while self._fi < len(f) and f[self._fi][2] == "s" and f[self._fi][0] <= self.steps:
